@@ -27,13 +27,14 @@ Lemma blk_stream_ok N cm ops prev : 1 <= N -> 0 <= cm -> (2 <= N -> 1 <= cm) -> 
     RevBlk.snaps c' = [] /\ RevBlk.store x' = [] /\ RevBlk.rr x' = N /\ RevBlk.endfwd x' = true.
 Proof.
   intros HN Hcm Hcm1 HB.
-  destruct (RevBlk.blk_ok N cm true 0 (N - 1) cm ops HB 0%nat prev RevGen.init_c RevGen.init_x) as (acts & c' & x' & lastop & HR & HX & HEx).
+  destruct (RevBlk.blk_ok N cm [] true 0 (N - 1) cm ops HB 0%nat prev RevGen.init_c RevGen.init_x) as (acts & c' & x' & lastop & HR & HX & HEx).
   - unfold RevBlk.Entry, RevGen.init_c, RevGen.init_x, RevBlk.keys, RevBlk.store_ok, RevBlk.sameset.
     cbn [RevBlk.n_ RevBlk.r_ RevBlk.snaps RevBlk.fwd RevBlk.wdeps RevBlk.endfwd RevBlk.store RevBlk.rr map length orb].
     replace (0 + (N - 1) + 1) with N by lia. rewrite Z.eqb_refl. cbn [negb].
     repeat match goal with |- _ /\ _ => split end; try lia; try reflexivity; try tauto.
     + constructor.
     + intros p a b; discriminate.
+    + intros p [].
     + intros p [].
   - discriminate.
   - destruct HEx as (Hn & Hr & Hrr & Hf & Hwd & Hwi & Hef & Hst & Hss).
@@ -42,7 +43,7 @@ Proof.
     cbn [RevBlk.store RevGen.init_x RevBlk.remove] in Hst.
     repeat match goal with |- _ /\ _ => split end; auto; try lia.
     destruct (RevBlk.snaps c') as [|z l] eqn:E; [reflexivity|]. exfalso.
-    assert (Hin : In z (RevBlk.keys x')) by (apply Hss; left; reflexivity).
+    destruct (proj1 (Hss z) (or_introl eq_refl)) as [Hin|[]].
     unfold RevBlk.keys in Hin. rewrite Hst in Hin. exact Hin.
 Qed.
 
